@@ -182,6 +182,19 @@ def run(v):
         deep = [r for r in res3.records if "h" in r and len(r["h"]) == 4]
         rng = random.Random(v.seed)
         edges += rng.sample(deep, min(len(deep), 60000))
+    # set ; observe everything ; set - exhaustive for re-binding first changes (Scene_SOS.tla)
+    sos_cfg = CFG.format(maxhist=3, inits='{"fresh"}', params=tla_set(ALL)).replace("SPECIFICATION Spec", "SPECIFICATION SOSSpec") \
+        .replace("ACTION_CONSTRAINT Emit", "ACTION_CONSTRAINT EmitSOS").replace("PROPERTY ObserveIsPure\n", "").replace("VIEW View\n", "")
+    res_sos = core.run_tlc("Scene_SOS", sos_cfg, workers=1, seed=v.seed, timeout=3000, tag="Scene-SOS")
+    core.tlc_must_pass(res_sos, "Scene_SOS")
+    v.add_tlc(res_sos, "Scene_SOS/set-observe-set")
+    sos = [r for r in res_sos.records if "h" in r]
+    if len(sos) < 1000:
+        raise core.MachineryError(f"vacuity: only {len(sos)} set-observe-set histories")
+    if v.tier == "quick":
+        sos = random.Random(v.seed).sample(sos, min(len(sos), 2500))
+    v.notes["set_observe_set_histories"] = len(sos)
+    edges += sos
     ops = {}
     for r in edges:
         e = r["h"][-1]
